@@ -549,12 +549,12 @@ def load_extra_known(rep):
 def run(tier, seed, replay=None):
     rep = Report(PROP, tier, seed)
     load_extra_known(rep)
-    ok, msg = gen_consts()
+    ok, msg = gen_consts("c19")
     cb = coq_build("Properties_C19")
     gate = coq_gate()
     rep.proof_cov(cb, "make -C coq Props/Properties_C19.vo && coqc Props/Properties_C19.v (Print Assumptions) ; grep gate")
     proof_ok = ok and cb["ok"] and not gate
-    model_build()
+    model_build("url")
     bdir, err = nng_build("asan")
     if bdir is None:
         p = rep.replay_file("build_failed.txt", err)
